@@ -37,7 +37,7 @@ AllAmounts(u) ==
 (* The large enumerations take a dummy parameter so that TLC does not pre-evaluate them as constants
    (it would do so once per worker at start-up). *)
 (* ---- families ------------------------------------------------------------------------------- *)
-Case(fam, trig, es) == [fam |-> fam, trig |-> trig, es |-> es, eol |-> "LF", final |-> TRUE]
+Case(fam, trig, es) == [fam |-> fam, trig |-> trig, es |-> es, eol |-> "LF", final |-> TRUE, tight |-> FALSE]
 
 FamAmounts(u) ==
     { Case("amounts", "", << [BaseTx EXCEPT !.posts[1].amt = <<a>>] >>) : a \in AllAmounts(0) }
@@ -125,7 +125,8 @@ FamPairs(u) ==
 (* ---- random journals: the Rand* operators live in JournalRand.tla ---------------------------- *)
 RandJournal(x) == RandJournalN(x, MaxEntries)
 
-RandCase(x) == [fam |-> "random", trig |-> "", es |-> RandJournal(x), eol |-> Pick({"LF", "LF", "CRLF"}), final |-> ~Coin(4, x)]
+(* a third of the random journals are laid out tightly: no blank line between entries *)
+RandCase(x) == [fam |-> "random", trig |-> "", es |-> RandJournal(x), eol |-> Pick({"LF", "LF", "CRLF"}), final |-> ~Coin(4, x), tight |-> Coin(3, x)]
 
 (* ---- the one-step behaviour that TLC enumerates / simulates --------------------------------- *)
 VARIABLES cas, stg
@@ -142,8 +143,8 @@ Next == /\ Family = "random" /\ stg = 0
         /\ stg' = 1
         /\ cas' = RandCase(stg)
 
-Out(k) == LET r == Rendered(k.es) IN
-          [fam |-> k.fam, trig |-> k.trig, eol |-> k.eol, final |-> k.final, lines |-> r.lines, firsts |-> r.firsts, abs |-> r.abs,
+Out(k) == LET r == RenderedT(k.es, k.tight) IN
+          [fam |-> k.fam, trig |-> k.trig, eol |-> k.eol, final |-> k.final, tight |-> k.tight, lines |-> r.lines, firsts |-> r.firsts, abs |-> r.abs,
            lex |-> IF WithLex THEN r.lex ELSE <<>>, u16 |-> IF WithLex THEN r.u16 ELSE <<>>, runes |-> IF WithLex THEN r.runes ELSE <<>>,
            es |-> IF WithLex THEN k.es ELSE <<>>]
 
